@@ -893,6 +893,37 @@ pub fn c16_scn(name: &str, full: bool) -> ChatScn {
     s
 }
 
+/// "Give the configured ranks to the listed nicknames whenever these join": the lists are
+/// configuration - joins, parts and nick changes of the listed users do not rewrite them.
+pub fn c16_ranks_scn(name: &str, full: bool) -> ChatScn {
+    let mut cfg = oper_cfg();
+    cfg.label = "oper+preconfigured-#p-with-rank-lists".into();
+    cfg.channels = vec![crate::scn::CfgChan { name: "#p".into(), founders: vec!["alice".into()], operators: vec!["bob".into()], voices: vec!["bob".into(), "carol".into()], ..Default::default() }];
+    let mut s = c16_scn(name, false);
+    s.cfg = cfg;
+    s.alphabet_for.clear();
+    s.prelude.clear();
+    for slot in 0..3 {
+        for t in ["JOIN #p", "PART #p", "NICK {alt}"] {
+            s.alphabet_for.push((slot, t));
+        }
+        if full {
+            s.alphabet_for.push((slot, "QUIT"));
+            s.alphabet_for.push((slot, "KICK #p {peer}"));
+        }
+    }
+    s.ends = vec![];
+    s.probes_for.clear();
+    for slot in 0..3 {
+        s.probes_for.push((slot, "NAMES #p"));
+        s.probes_for.push((slot, "MODE #p"));
+    }
+    s.probe_focus = Some(Focus { cats: vec![], relays: false, relay_verbs: None, actor: true, actor_codes: Some(vec!["353", "324"]), closes: false });
+    s.step_oracle = None;
+    s.goals = vec![];
+    s
+}
+
 /// "within the max_joins quota": with max_joins = 1 a JOIN beyond the quota creates
 /// nothing, whether the channel exists or not.
 pub fn c16_quota_scn(name: &str) -> ChatScn {
@@ -1202,6 +1233,7 @@ pub fn plan(property: &str, quick: bool) -> Plan {
                 Part::Bfs(Box::new(c16_scn("c16-lifecycle", !quick)), lim(if quick { 7 } else { 7 }, 3_000_000, t(30.0, 900.0))),
                 Part::Bfs(Box::new(c16_quota_scn("c16-quota")), lim(if quick { 5 } else { 7 }, 1_000_000, t(10.0, 300.0))),
                 Part::Bfs(Box::new(c16_dup_scn("c16-repeated-names")), lim(if quick { 4 } else { 6 }, 1_000_000, t(10.0, 300.0))),
+                Part::Bfs(Box::new(c16_ranks_scn("c16-configured-ranks", !quick)), lim(if quick { 5 } else { 6 }, 2_000_000, t(20.0, 600.0))),
                 Part::Custom("fun:c16-lattice".into(), Box::new(move || c16_lattice(quick))),
             ],
         },
@@ -1229,6 +1261,7 @@ pub fn scenarios(property: &str) -> Vec<Box<dyn Scenario>> {
                 v.push(Box::new(c16_scn("c16-lifecycle", full)));
                 v.push(Box::new(c16_quota_scn("c16-quota")));
                 v.push(Box::new(c16_dup_scn("c16-repeated-names")));
+                v.push(Box::new(c16_ranks_scn("c16-configured-ranks", full)));
             }
             _ => {}
         }
